@@ -204,6 +204,8 @@ def main():
     broken = []
     if problems:
         broken += problems
+    if hasattr(prop, "static_checks"):
+        broken += list(prop.static_checks())
     if cor_issues:
         # disagreement inside an open known class is not compared (DESIGN 4)
         cor_issues = [i for i in cor_issues
